@@ -26,7 +26,7 @@ RULE = ("per-run seed -> knobs + a history of 1-6 writer transactions with every
 ASSUMPTIONS = ["the query-shape dimension is sampled workload (input generation); what the simulator contributes is the index state: histories, layouts, deletions, knobs, restarts",
                "documented meanings: Not = live documents minus matches, AndMaybe = first operand, Require = intersection, DisjunctionMax = union, Phrase(slop) = consecutive words at position distance 1..slop",
                "analysis is trusted (terms of a document come from field.index)"]
-TIERS = {"quick": {"runs": 700, "time_budget": 100, "audit_every": 40},
+TIERS = {"quick": {"runs": 700, "time_budget": 150, "audit_every": 40},
          "thorough": {"runs": 30000, "time_budget": 1500, "audit_every": 100}}
 
 
